@@ -636,13 +636,8 @@ func (gw *GlobalWindow) getKeyAndValues(data map[string]any) (string, map[string
 			}
 		}
 		values[k] = val
-		if val == nil {
-			parts = append(parts, "")
-		} else if s, ok := val.(string); ok {
-			parts = append(parts, s)
-		} else {
-			parts = append(parts, fmt.Sprintf("%v", val))
-		}
+		// Escaped so that values containing "|" and NULL vs "" never share a key.
+		parts = append(parts, cast.GroupKeyPart(val, '|'))
 	}
 	return strings.Join(parts, "|"), values
 }
